@@ -789,7 +789,7 @@ func TestVerif_C09(t *testing.T) {
 			"swap, insert of every absent/later key at sorted and unsorted positions) x proofdb in {edge proofs, family nodes}; honest runs also with the output of Trie.Prove and with each edge-proof node withheld " +
 			"(quick: 127 subset tries per alphabet with alternating values; thorough: all 2186 assignments, and for the 127 core tries every subset of nodes withheld for honest runs and each node withheld for edits); " +
 			"[wild] runs of <=2 entries over keys of mixed lengths incl. empty key, empty values, unsorted, mismatched key/value counts, x mixed-length starts x 4 proofdbs: no panic, no false entry accepted. " +
-			"distinct = distinct (trie, claimed run, start, verdict) for all/noproof, distinct (trie,start,run) otherwise; evaluations = VerifyRangeProof executions")
+			"distinct = distinct (trie, start, claimed run) in the quick tier, distinct (trie, claimed run) in the thorough tier; evaluations = VerifyRangeProof executions")
 		r.Assume("oracle = the property sentence evaluated on the sorted true content; proof nodes and roots from an independent Yellow-Paper MPT transcription (checked equal to Trie.Hash for every trie)")
 		r.Assume("proof databases are keyed by Keccak-256 of the blob; only genuine nodes (of the trie itself or of other tries of the family) are offered, per the statement")
 		r.Assume("tries verified with proofs are non-empty (an empty trie has no node to prove anything against); the empty trie is covered with proof=nil")
@@ -869,7 +869,11 @@ func TestVerif_C09(t *testing.T) {
 						if allFamily {
 							c09Verify(r, tr, "all", s, run, familyDB, "family", true, st)
 						}
-						r.DistinctHash(ftag | uint64(ti)<<32 | uint64(ri)<<8 | uint64(si))
+						if r.Thorough() {
+							r.DistinctHash(ftag | uint64(ti)<<32 | uint64(ri)<<8) // thorough: per (trie, claimed run), to stay below mc's distinct cap
+						} else {
+							r.DistinctHash(ftag | uint64(ti)<<32 | uint64(ri)<<8 | uint64(si))
+						}
 					}
 				}
 				if ti%61 == 0 {
@@ -971,6 +975,10 @@ func TestVerif_C09(t *testing.T) {
 					if r.Expired() {
 						return
 					}
+					ds := s // distinct key includes the start key in the quick tier only (thorough: per (trie, claimed run))
+					if r.Thorough() {
+						ds = nil
+					}
 					var rem []c09KV
 					for _, e := range tr.ents {
 						if bytes.Compare(e.k, s) >= 0 {
@@ -993,7 +1001,7 @@ func TestVerif_C09(t *testing.T) {
 						} else {
 							c09Verify(r, tr, "edits/honest", s, honest, pdb, "prove", true, st)
 						}
-						r.DistinctHash(honest.hash(c09HashBytes(c09HashBytes(mc.Hash64(fam.name), []byte(tr.id)), s)))
+						r.DistinctHash(honest.hash(c09HashBytes(c09HashBytes(mc.Hash64(fam.name), []byte(tr.id)), ds)))
 						// honest run with proof nodes withheld: never a wrong verdict
 						hk := hedge.sortedKeys()
 						masks := []int{}
@@ -1020,7 +1028,7 @@ func TestVerif_C09(t *testing.T) {
 							edge := tr.edge(s, run)
 							c09Verify(r, tr, "edits/edit", s, run, edge, "edge", true, st)
 							c09Verify(r, tr, "edits/edit", s, run, familyDB, "family", true, st)
-							r.DistinctHash(run.hash(c09HashBytes(c09HashBytes(mc.Hash64(fam.name), []byte(tr.id)), s)))
+							r.DistinctHash(run.hash(c09HashBytes(c09HashBytes(mc.Hash64(fam.name), []byte(tr.id)), ds)))
 							if subsetsAll {
 								ek := edge.sortedKeys()
 								for i := range ek {
